@@ -474,7 +474,11 @@ func mutations() []mutation {
 				return ""
 			}
 			return fmt.Sprintf("bumpr(%s[%s]);", lv, k.lit())
-		}, apply: func(a *parr) bool { k, _ := firstKey(a); a.set(pent{str: k.str, ki: k.ki, ks: k.ks}, iv(90)); return true }},
+		}, apply: func(a *parr) bool {
+			k, _ := firstKey(a)
+			a.set(pent{str: k.str, ki: k.ki, ks: k.ks}, iv(90))
+			return true
+		}},
 		{name: "ref-param-nested", class: "ref", sibling: "nested-set", src: func(lv string, a *parr) string {
 			in, k, ok := firstInner(a)
 			if !ok {
@@ -497,20 +501,32 @@ func mutations() []mutation {
 				return ""
 			}
 			return fmt.Sprintf("$r9 = &%s[%s]; $r9 = 90; unset($r9);", lv, k.lit())
-		}, apply: func(a *parr) bool { k, _ := firstKey(a); a.set(pent{str: k.str, ki: k.ki, ks: k.ks}, iv(90)); return true }},
+		}, apply: func(a *parr) bool {
+			k, _ := firstKey(a)
+			a.set(pent{str: k.str, ki: k.ki, ks: k.ks}, iv(90))
+			return true
+		}},
 		{name: "ref-foreach", class: "ref", sibling: "set-first", src: func(lv string, a *parr) string {
 			if _, ok := firstKey(a); !ok {
 				return ""
 			}
 			return fmt.Sprintf("foreach (%s as &$v9) { $v9 = 90; break; } unset($v9);", lv)
-		}, apply: func(a *parr) bool { k, _ := firstKey(a); a.set(pent{str: k.str, ki: k.ki, ks: k.ks}, iv(90)); return true }},
+		}, apply: func(a *parr) bool {
+			k, _ := firstKey(a)
+			a.set(pent{str: k.str, ki: k.ki, ks: k.ks}, iv(90))
+			return true
+		}},
 		{name: "ref-closure", class: "ref", sibling: "set-first", src: func(lv string, a *parr) string {
 			k, ok := firstKey(a)
 			if !ok {
 				return ""
 			}
 			return fmt.Sprintf("$r9 = &%s[%s]; $g9 = function() use (&$r9) { $r9 = 90; return 0; }; $g9(); unset($r9);", lv, k.lit())
-		}, apply: func(a *parr) bool { k, _ := firstKey(a); a.set(pent{str: k.str, ki: k.ki, ks: k.ks}, iv(90)); return true }},
+		}, apply: func(a *parr) bool {
+			k, _ := firstKey(a)
+			a.set(pent{str: k.str, ki: k.ki, ks: k.ks}, iv(90))
+			return true
+		}},
 		{name: "ref-nested-sort", class: "ref", sibling: "nested-set", src: func(lv string, a *parr) string {
 			in, k, ok := firstInner(a)
 			if !ok || len(in.e) < 2 {
